@@ -452,6 +452,23 @@ func main() {
 			}
 		}
 	}
+	// letters whose simple case folding is not their lower-case mapping (final sigma, micro sign,
+	// long s, dotted/dotless i, Kelvin and Angstrom signs, title-case digraphs): literal regexes
+	// with and without the i flag — every builtin must agree with `match` on them
+	{
+		foldSubs := []string{"ΣΑΣ", "σας", "ς", "5 µm", "μ", "ſet", "set", "İz", "ız", "iz", "IZ", "K", "k", "Å", "å", "ǅ", "ǆ", "Ǆ", "ß", "SS", "ẞ"}
+		foldRes := []string{"ς", "σ", "Σ", "µ", "μ", "Μ", "ſ", "s", "S", "i", "I", "İ", "ı", "K", "k", "å", "Å", "ǆ", "ǅ", "ß", "ss", "σας", "set"}
+		for si, sub := range foldSubs {
+			for ri, re := range foldRes {
+				for fi, fl := range []any{"i", "gi", nil} {
+					if !ctx.Thorough && fi == 2 && (si+ri)%4 != 0 {
+						continue
+					}
+					triples = append(triples, triple{sub, re, fl})
+				}
+			}
+		}
+	}
 	// a few subjects that are not valid UTF-8: the model's conversion is still compared, MatchesOK is false
 	invalid := []string{"\xff", "a\xffb", "\xc3", "é\xc3a", "\xed\xa0\x80", "a\xf0\x9f\x98", "\x80é\x80"}
 	for _, s := range invalid {
@@ -670,6 +687,7 @@ func main() {
 
 	// ---------- string positions ---------------------------------------------------------------
 	strStreams(ctx, e, subs, invalid)
+	sameQueryOracle(ctx)
 	ctx.Finish()
 }
 
